@@ -626,6 +626,15 @@ def main(tier, replay=None):
         else:
             mout = dict(zip(midx, mo))
 
+    # 4b. the proved reference parser (C19_poly_text_parse) applied to what the implementation wrote
+    if drv:
+        pidx = [i for i, c in enumerate(cases) if c["kind"] == "poly.write" and iout[i].split()]
+        rc, po, perr = run_chunks(drv, ["poly.parse %s %s" % (hx(cases[i]["spec"]["var"]), iout[i].split()[0]) for i in pidx], 2)
+        if rc != 0 or len(po) != len(pidx):
+            chk.broke("model driver failed on poly.parse (rc=%s, %d/%d lines)" % (rc, len(po), len(pidx)), perr)
+        else:
+            for i, l in zip(pidx, po):
+                cases[i]["spec"]["model_parse"] = l.strip()
     # 5. three-way comparison
     ncorr = 0
     dist = {}
@@ -987,6 +996,11 @@ def judge(chk, c, got, mline, gfq_texts):
         else:
             corr(mt[:1] if mt else None, got[:1], " (text)")
             model_vs_spec(mt is None or mt[:1] == [hx(exp_text)], exp_text)
+            mp = sp.get("model_parse")
+            wantl = ",".join("%d:%d" % (i, x) for i, x in sorted(want.items())) or "-"
+            if mp is not None and mp != wantl:
+                chk.broke("the extracted reference parser (C19_poly_text_parse) does not recover the polynomial from the implementation's text `%s`: %s, expected %s"
+                          % (text[:200], mp, wantl))
             # is there a reader for it?  Poly1Dom::read expects "deg c_deg ... c_0"
             if len(got) < 2 or got[1] != "1" or (len(got) >= 5 and got[4][1] == "1"):
                 nz = [x for x in reps if x != 0]
